@@ -223,7 +223,7 @@ def run_star(acc, srv, key):
 def run_shard(acc, prop, tier, seed, shard, nshards, **kw):
     srv = Server()
     try:
-        n = 6 if tier == "quick" else 1200
+        n = 9 if tier == "quick" else 1200
         for wi in range(n):
             from .. import core as _core
             if _core.skip_world(wi):
